@@ -33,8 +33,9 @@ def gen_cases(rng, tier, scale):
     # helper arguments and subexpressions are never escaped
     for k in range((100 if tier == 'quick' else 1500) * scale):
         v = rs(rng)
-        tpl = '{{dump v (id v) k=v}}|{{id v}}|{{{id v}}}|{{#if (id v)}}{{v}}{{/if}}|{{lookup (id o) "k"}}|{{#blk}}{{v}}{{/blk}}'
-        cases.append(rcase(f'h{k}', tpl, {'v': v, 'o': {'k': v}}, pre=['probes', 'esc 2'], entry=4, kind='args', v=v, tags=['args']))
+        tpl = ('{{dump v (id v) k=v}}|{{id v}}|{{{id v}}}|{{#if (id v)}}{{v}}{{/if}}|{{lookup (id o) "k"}}|{{#blk}}{{v}}{{/blk}}'
+               '|{{{id (dump v)}}}|{{{lookup o (if t)}}}|{{{lookup o (cnt 1)}}}{{{id v}}}|{{#each l}}{{{lookup @root.o (with t)}}}{{/each}}')
+        cases.append(rcase(f'h{k}', tpl, {'v': v, 'o': {'k': v, '': v}, 't': True, 'l': [1, 2]}, pre=['probes', 'esc 2'], entry=4, kind='args', v=v, tags=['args']))
     # random templates under the marking fn: structural oracle
     for k in range((300 if tier == 'quick' else 6000) * scale):
         data = gen_object(rng, 2, odd=0.05)
@@ -136,6 +137,8 @@ def oracle(c, io, mo):
         exp1, exp2 = m, v
         if len(parts) >= 3 and '|' not in v and (parts[1] != exp1 or parts[2] != exp2):
             return f'value-returning helper: expected {exp1!r}|{exp2!r}, got {parts[1]!r}|{parts[2]!r}'
+        if '|' not in v and len(parts) >= 10 and any('\x01' in p_ for p_ in parts[6:10]):
+            return f'a triple-brace helper expression with a subexpression argument was escaped: {parts[6:10]!r}'
         return None
     if k in ('random',):
         sp = marks_ok(out, log)
